@@ -106,6 +106,7 @@ pub fn plan(id: &str) -> Option<Plan> {
             engines: vec![
                 Engine { name: "sim", salt: 1, quick: 6000, thorough: 400_000, serial: false, run: Box::new(|s, t| c03::scenario("C03", s, t)) },
                 Engine { name: "stress", salt: 2, quick: 3, thorough: 16, serial: true, run: Box::new(|s, t| c03::stress("C03", s, t.pick(20_000, 100_000))) },
+                Engine { name: "stress-parked-call", salt: 5, quick: 3, thorough: 16, serial: true, run: Box::new(|s, _t| c03::parked_call(s)) },
             ],
             extra: None,
         },
